@@ -125,5 +125,21 @@ TEXT = {
   "note": NOTE,
   "technique": "Coq proof (per-field rejection, error stickiness through the decoder IR) + specification-driven must-reject oracle",
  },
+ "C13": {
+  "level": "Partial. Theorem C13_schedules: on an abstract shared-memory machine, threads whose programs never write a shared location are race-free under "
+           "every schedule and compute what they compute alone (proved for all programs, thread counts and schedules). That the Go read-only API "
+           "(WriteTo, String, Dump, WellFormed, accessors) satisfies the premise is a fact about Go memory accesses that the functional model cannot "
+           "exhibit; it is checked on the implementation by a race-detector campaign (8 goroutines per shared packet) on every run.",
+  "note": NOTE + " The Go memory model, runtime and standard library are outside the model.",
+  "technique": "Coq proof (schedule-quantified race freedom for read-only programs) + Go race detector campaign with byte comparison",
+ },
+ "C14": {
+  "level": "Theorems C14_fresh / C14_owns (static provenance of the decoder IR: every byte-slice field any decoder stores is allocated during the call, so "
+           "accessors do not depend on later writes to the input; the pre-repair Undefined decoder is rejected by the same check) and "
+           "C14_history_independent (a frame's decoding does not depend on earlier reads). Heap aliasing between Go packets is observed by the scribble "
+           "and pool oracles, not proved; provenance annotations of the primitives are hand-written.",
+  "note": NOTE,
+  "technique": "Coq proof (provenance analysis of the decoder IR) + scribble/pool aliasing oracle + correspondence",
+ },
 }
 NOT_APPLICABLE = {}
